@@ -759,7 +759,15 @@ func (cr *checkRun) assumptions(trusted, havocked []string) []string {
 		"A-INT256: every math.Int value is nil or within 256 bits",
 		"slices: append never aliases a previous backing array (capacity not modelled)",
 		"package-level variables are not written after init (scanned each run)",
-		"partial correctness: obligations speak about executions that return; panics are the subject of C14",
+		"partial correctness: obligations speak about executions that return; panics are the subject of C14 (and of C11/C17 for their own functions)",
+		"havocked callees are assumed not to panic, except functions of cosmossdk.io/math, cosmos-sdk/types, math/big and Must* functions: a call to one of those without a panics-unless spec is a failed safety obligation in the runs that prove panic freedom",
+		"[inv] preconditions (registered routes non-nil, the IBC adapter is the route of PROTOCOL_IBC, stored totals decode to non-nil integers, the stored limit is unsigned) are assumed at entry and never re-proved per call; non-nil injected dependencies are NOT assumed: they are object invariants proved on the constructors (typeinv) - what is assumed there is that the application wiring calls those constructors",
+		"integers are mathematical with Go wrap-around written out at each arithmetic instruction; products of two symbolic integers are an uninterpreted function (sound abstraction)",
+	}
+	if cr.tier == "thorough" {
+		out = append(out, "trusted specs of plain-value library functions used by this run were TESTED (not proved) against the real functions on generated inputs: see coverage.trusted_spec_conformance")
+	} else {
+		out = append(out, "trusted specs are not re-tested in the quick tier (./conform and the thorough tier test those of plain-value functions against the real code)")
 	}
 	return out
 }
